@@ -120,6 +120,47 @@ def register(M):
         caps = [Obj('captures', groups=(Obj('tstr', parts=(p,)), p[1])) for p in s.parts if p[0] == 'ph']
         return Obj('iter', items=tuple(caps), ty=dty)
 
+    # ------------------------------------------------------------------ hashing of strings (DefaultHasher)
+    # hash(s) is one 64-bit unknown per string; equal strings have equal hashes (the converse is not assumed: collisions are
+    # possible in the model as they are in reality)
+    @reg('DefaultHasher::new', 'DefaultHasher::default', 'RandomState::build_hasher', 'BuildHasher::build_hasher')
+    def _(ex, info, a, dty):
+        return Obj('hasher', fed=())
+
+    def hash_of_string(ex, v):
+        if isinstance(v, Obj) and v.kind == 'str':
+            nm = 'lit:' + v.text
+        elif isinstance(v, Obj) and v.kind == 'symstr':
+            nm = v.name
+        else:
+            raise Inconclusive('hash of %r' % (v,))
+        known = ex.env.setdefault('string_hashes', {})
+        if nm not in known:
+            h = z3.BitVec('hash(%s)' % nm, 64)
+            for other, (ho, vo) in known.items():
+                ex.add(z3.Implies(M.str_eq(ex, None, [v, vo], 'bool'), h == ho))
+            known[nm] = (h, v)
+        return known[nm][0]
+
+    @reg('Hash::hash')
+    def _(ex, info, a, dty):
+        cell, path = ex.deref(a[1])
+        hs = ex.read_path(cell, path)
+        if not (isinstance(hs, Obj) and hs.kind == 'hasher'):
+            raise Inconclusive('Hash::hash into %r' % (hs,))
+        ex.write_path(cell, path, hs.set(fed=hs.fed + (hash_of_string(ex, str_of(ex, a[0])),)))
+        return UNIT
+
+    @reg('Hasher::finish')
+    def _(ex, info, a, dty):
+        cell, path = ex.deref(a[0])
+        hs = ex.read_path(cell, path)
+        if not (isinstance(hs, Obj) and hs.kind == 'hasher'):
+            raise Inconclusive('Hasher::finish on %r' % (hs,))
+        if len(hs.fed) == 1:
+            return hs.fed[0]
+        return ex.fresh('hash_of_%d_items' % len(hs.fed), z3.BitVecSort(64))
+
     @reg('Replacer::by_ref')
     def _(ex, info, a, dty):
         return a[0]              # ReplacerRef(&mut R): the same replacer
